@@ -192,6 +192,10 @@ fn check_case(c: &Case) -> Outcome {
     if keys_have_internal_dups(&expanded) {
         return Outcome::Discard("dup-inside-key");
     }
+    if gdoc::resolve_merges(&expanded).is_err() {
+        // (only reachable through shrinking: what is no merge value is C03's domain)
+        return Outcome::Discard("invalid-merge-value");
+    }
     let text = &r.text;
     let first = dedup(&expanded, true);
     let last = dedup(&expanded, false);
@@ -280,7 +284,8 @@ fn check_case(c: &Case) -> Outcome {
                         }
                         // and nothing is dropped: the number of delivered entries at the root
                         if let (U::Map(es), Kind::Map { entries, .. }) = (a, &expanded.kind) {
-                            if es.len() != entries.len() {
+                            // (a `<<` entry stands for the entries it merges in)
+                            if es.len() != entries.len() && !entries.iter().any(|(k, _)| k.is_merge_key()) {
                                 return Outcome::Fail(format!("LastWins delivered {} root entries of {} (text {text:?})", es.len(), entries.len()));
                             }
                         }
@@ -303,6 +308,56 @@ fn check_case(c: &Case) -> Outcome {
 
 fn s(v: &str) -> Node {
     Node::plain(v)
+}
+
+/// `{x: own, <<: SRC}` where SRC repeats keys among its own entries; `es` = (key, presentation,
+/// value) of the source entries, `supply` = how the source reaches the `<<` entry
+fn merge_source_case(es: &[(usize, usize, usize)], supply: usize, lb: u32, own_first: bool) -> Case {
+    let keys = ["a", "b", "c"];
+    let entries: Vec<(Node, Node)> = es
+        .iter()
+        .enumerate()
+        .map(|(i, (k, pres, v))| {
+            let key = match pres % 3 {
+                0 => s(keys[k % 3]),
+                1 => Node::scalar(keys[k % 3], Style::Double),
+                _ => Node::scalar(keys[k % 3], Style::Single),
+            };
+            let val = match v % 3 {
+                0 => s(&format!("v{i}")),
+                1 => Node::seq(true, vec![s(&format!("s{i}")), s("t")]),
+                _ => Node::map(true, vec![(s("p"), s(&format!("m{i}")))]),
+            };
+            (key, val)
+        })
+        .collect();
+    let src = Node::map(supply % 2 == 0, entries);
+    let other = Node::map(true, vec![(s("b"), s("ob")), (s("d"), s("od"))]);
+    let mut defs: Option<Node> = None;
+    let mv = match supply % 8 {
+        0 | 1 => src,
+        2 | 3 => {
+            defs = Some(src.anchored("src"));
+            Node::alias("src")
+        }
+        4 => Node::seq(true, vec![src, other]),
+        5 => Node::seq(true, vec![other, src]),
+        6 => Node::map(true, vec![(s("<<"), src), (s("d"), s("nd"))]),
+        _ => {
+            defs = Some(src.anchored("src"));
+            Node::seq(true, vec![other, Node::alias("src")])
+        }
+    };
+    let mut t = vec![(s("x"), s("own")), (s("<<"), mv)];
+    if !own_first {
+        t.reverse();
+    }
+    let t = Node::map(false, t);
+    let doc = match defs {
+        Some(d) => Node::map(false, vec![(s("defs"), d), (s("t"), t)]),
+        None => t,
+    };
+    Case { doc, layout: Layout::from_bits(lb), target: Target::Untyped, poison: false }
 }
 
 /// values of growing size, up to 4-level containers with aliases (so that a wrong skip desynchronises)
@@ -567,6 +622,12 @@ impl Property for C04 {
         )
             .prop_map(|(es, x, lb, target, place)| make_case(es, lb, target, place, x && lb % 4 == 0));
         ctx.run_strategy("random", 1, ctx.tier.pick(40_000, 500_000), &strat, nontrivial);
+
+        // ---------------- a mapping that is consumed as a merge source is a mapping too: its own
+        // repeated keys fall under the policy (supplied in place, through an alias, inside a
+        // merge sequence, below a nested merge)
+        let strat = (prop::collection::vec((0usize..3, 0usize..3, 0usize..3), 2..5), 0usize..8, 0u32..(1 << 12), any::<bool>()).prop_map(|(es, supply, lb, own_first)| merge_source_case(&es, supply, lb, own_first));
+        ctx.run_strategy("merge-source-repeats", 2, ctx.tier.pick(12_000, 120_000), &strat, |_| true);
     }
 }
 
